@@ -5,6 +5,7 @@ Generic over the datatype: rollback = restore the rollback snapshot and replay; 
 holds in every state reachable without a panic, whatever the prior history.
 -/
 import Orda.Proofs.Replay
+import Orda.Proofs.ListTxNet
 namespace Orda.Props.C09
 open Orda
 
@@ -55,5 +56,54 @@ theorem malformed_header_refused (r : Replica) (hd : Op) (rest : List Op) (tag :
     (hb : hd.body = .transaction tag n) (hbad : n < 1 ∨ n.toNat > (hd :: rest).length) :
     r.receive (hd :: rest) = (r, .err Err.transaction) :=
   receive_bad_header r hd rest tag n hb hbad
+
+/-! ### END TO END (`LTx`, Proofs/ListTxNet; List datatype): n replicas with pairwise distinct client ids and one server log;
+steps: any public call, any user TRANSACTION (`Replica.txCalls`: body of arbitrary calls, stop-on-error or not, user function
+failing at the end or not), push of a replica's whole pending buffer in one request, pull of the whole rest of the log through ONE
+`Replica.receive` — in any interleaving. -/
+
+open Orda.LTx in
+/-- a transaction whose body returns an error leaves the readable state, the pending operations, the next operation identifier
+    and the checkpoint exactly as they were — in every reachable state of the system; and a transaction never panics -/
+theorem failed_transaction_changes_nothing_anywhere (cuid : Nat → String) (n : Nat) (net : LNet.Net) (h : LTx.Reach cuid n net)
+    (i : Nat) (nd : LNet.Node) (hi : net.nodes[i]? = some nd) (tag : String) (calls : List Call) (stopOnErr failAtEnd : Bool) :
+    ((nd.r.txCalls tag calls stopOnErr failAtEnd).2.2 = .ok () ∨ ∃ c, (nd.r.txCalls tag calls stopOnErr failAtEnd).2.2 = .err c) ∧
+    (∀ c, (nd.r.txCalls tag calls stopOnErr failAtEnd).2.2 = .err c →
+      (nd.r.txCalls tag calls stopOnErr failAtEnd).1.opId = nd.r.opId ∧
+      (nd.r.txCalls tag calls stopOnErr failAtEnd).1.state = nd.r.state ∧
+      (nd.r.txCalls tag calls stopOnErr failAtEnd).1.buffer = nd.r.buffer ∧
+      (nd.r.txCalls tag calls stopOnErr failAtEnd).1.cp = nd.r.cp) :=
+  ⟨ltx_tx_never_panics h hi tag calls stopOnErr failAtEnd,
+   fun c hc => ltx_failed_tx_is_noop h hi tag calls stopOnErr failAtEnd c hc⟩
+
+open Orda.LTx in
+/-- a committed transaction is queued as ONE contiguous unit that announces its own length -/
+theorem committed_transaction_is_one_announced_unit (cuid : Nat → String) (n : Nat) (net : LNet.Net)
+    (h : LTx.Reach cuid n net) (i : Nat) (nd : LNet.Node) (hi : net.nodes[i]? = some nd) (tag : String) (calls : List Call)
+    (stopOnErr failAtEnd : Bool) (hok : (nd.r.txCalls tag calls stopOnErr failAtEnd).2.2 = .ok ()) :
+    ∃ ops, (nd.r.txCalls tag calls stopOnErr failAtEnd).1.buffer =
+        nd.r.buffer ++ (⟨nd.r.opId.next, .transaction tag (ops.length + 1)⟩ :: ops) ∧
+      IsUnit (⟨nd.r.opId.next, .transaction tag (ops.length + 1)⟩ :: ops) := by
+  obtain ⟨ops, h1, h2, _⟩ := ltx_committed_tx_is_one_unit h hi tag calls stopOnErr failAtEnd hok
+  exact ⟨ops, h1, h2⟩
+
+open Orda.LTx in
+/-- ALL OR NOTHING on every replica: the log is a concatenation of units, and every replica has applied, of every unit written
+    by another replica, either ALL operations or NONE — at every moment; `receive` never refuses or panics in the system -/
+theorem every_replica_applies_all_of_a_unit_or_none (cuid : Nat → String) (n : Nat) (net : LNet.Net) (h : LTx.Reach cuid n net) :
+    (∃ units : List (Nat × List Op),
+      net.log = units.flatMap (fun (a, u) => u.map (a, ·)) ∧ (∀ au ∈ units, IsUnit au.2) ∧
+      ∀ i nd, net.nodes[i]? = some nd → ∀ au ∈ units, au.1 ≠ i →
+        (∀ o ∈ au.2, Applied net i (au.1, o)) ∨ (∀ o ∈ au.2, ¬ Applied net i (au.1, o))) ∧
+    (∀ (i : Nat) (nd : LNet.Node), net.nodes[i]? = some nd →
+      (nd.r.receive (pullOps net.log i nd)).2 = Outcome.ok ()) :=
+  ⟨ltx_all_or_nothing h, fun _ _ hi => ltx_receive_ok h hi⟩
+
+open Orda.LTx in
+/-- … and transactions do not disturb convergence: at quiescence all replicas hold the same list state -/
+theorem with_transactions_replicas_still_converge (cuid : Nat → String) (n : Nat) (net : LNet.Net) (h : LTx.Reach cuid n net)
+    (hq : LNet.Quiescent net) (i j : Nat) (hi : i < net.nodes.length) (hj : j < net.nodes.length) :
+    net.nodes[i].r.state = net.nodes[j].r.state :=
+  ltx_quiescent_converged h hq i j hi hj
 
 end Orda.Props.C09
